@@ -1,7 +1,7 @@
 (* C04 -- no input makes the compiler crash or hang: the parts that are theorems.
    Totality of the modelled stages (the runtime behaviour of the unmodelled stages is exercised by
    the crash stream of props/c04.py only; see DESIGN). *)
-From Ucg Require Import prec.Climb prec.Climb_Lemmas sem.Sem.
+From Ucg Require Import prec.Climb prec.Climb_Lemmas sem.Sem vm.Ops vm.Translate vm.Vm vm.Compile_Correct lex.Lex lex.Lex_Lemmas.
 From UcgGen Require Import PrecTable.
 
 (* the precedence climber returns a tree for every chain: the parser's
@@ -13,7 +13,7 @@ Proof. exact (fun A => climb_total_lemma A code_prec). Qed.
 (* integer arithmetic of the definitional semantics never leaves the i64 range:
    every result is either in range or the error outcome *)
 Theorem arith_in_range : forall (fo : float_ops) o (x y z : Z),
-    arith' fo o (VInt fo x) (VInt fo y) = Ok (VInt fo z) -> in_i64 z = true.
+    arith' fo o (@VInt fo x) (@VInt fo y) = Ok (@VInt fo z) -> in_i64 z = true.
 Proof.
   intros fo o x y z H. unfold arith', arith, chk in H.
   destruct o; cbn in H;
@@ -24,10 +24,22 @@ Qed.
 
 (* ranges of the definitional semantics stop at the last element that fits an i64 *)
 Theorem range_elements_in_range : forall (fo : float_ops) fuel start step stop,
-    in_i64 start = true -> Forall (fun v => exists z, v = VInt fo z /\ in_i64 z = true) (range_from fo fuel start step stop).
+    in_i64 start = true -> Forall (fun v => exists z, v = @VInt fo z /\ in_i64 z = true) (range_from fo fuel start step stop).
 Proof.
   intros fo fuel. induction fuel as [|f IH]; intros start step stop Hs; cbn [range_from]; [constructor|].
   destruct (Z.ltb stop start); [constructor|].
   constructor; [exists start; auto|].
   destruct (in_i64 (start + step)) eqn:E; [apply IH, E|constructor].
 Qed.
+
+(* the compiled form of a program whose meaning is defined never reaches unreachable!(), a stack
+   underflow, an unwrap on None or an invalid jump in the VM model *)
+Theorem translate_no_bug :
+  forall (fo : float_ops) p E strict_ fs, in_fragment p = true ->
+    (exists bs, sem_prog fo fs E strict_ true p = Ok bs) \/ sem_prog fo fs E strict_ true p = Err ->
+    forall fv, vm_prog fo fv E strict_ (translate p) <> VBug.
+Proof. exact Compile_Correct.translate_no_bug. Qed.
+
+(* the tokenizer model never runs out of fuel: it returns tokens or a diagnostic for every input *)
+Theorem lex_total : forall s, lex_fuel (List.length s + 1) s <> OutOfFuel.
+Proof. exact Lex_Lemmas.lex_total. Qed.
